@@ -540,6 +540,20 @@ def extra_obligations(mods, tier, seed):
     and delays (BOUNDED; the fragment proofs bypass the parser's argument resolution by construction)"""
     from progs import devdiff
     out = devdiff.obligations("C04/diff", devdiff.actuator_scripts(), what="getter values and delays equal the host class's under CPython")
+    # arguments that NAME a variable whose value changed in a nested body (the parser must not bake the variable's first value in)
+    VARARG = {
+        "motor-speed-accumulated-in-for": "m = DCMotor(5, 6, 9)\nspeed = 0.25\nfor i in range(2):\n    speed = speed + 0.25\nm.set_speed(speed)\nmon.write(m.get_speed())\nmon.write(m.get_applied_speed())\n",
+        "motor-speed-changed-in-main-loop": "m = DCMotor(5, 6, 9)\nb = 0.125\nwhile True:\n    b += 0.125\n    m.set_speed(b)\n    mon.write(m.get_speed())\n    sleep(5)\n",
+        "motor-backward-after-branch": "m = DCMotor(5, 6, 9)\nv = 0.5\nc = 1\nif c > 0:\n    v = 0.75\nm.backward(v)\nmon.write(m.get_speed())\n",
+        "motor-ramp-target-changed-in-for": "m = DCMotor(5, 6, 9)\nt = 0.25\nfor i in range(2):\n    t = t + 0.25\nm.ramp(t, 40, 4)\nmon.write(m.get_speed())\n",
+        "motor-run-for-duration-changed-in-while": "m = DCMotor(5, 6, 9)\nd = 10\nk = 0\nwhile k < 2:\n    d = d + 15\n    k = k + 1\nm.run_for(d, 0.5)\nmon.write(m.get_speed())\n",
+        "servo-angle-changed-in-while": "s = Servo(9)\nangle = 10\nk = 0\nwhile k < 3:\n    angle = angle + 20\n    k = k + 1\ns.write(angle)\nmon.write(s.read())\n",
+        "led-brightness-changed-in-for": "led = Led(9)\nlevel = 10\nfor i in range(3):\n    level = level + 40\nled.set_brightness(level)\nmon.write(led.get_brightness())\n",
+        "led-blink-duration-changed-in-branch": "led = Led(9)\nd = 10\nc = 1\nif c > 0:\n    d = 35\nled.blink(d, 2)\nmon.write(led.get_state())\n",
+        "rgb-colour-changed-in-for": "rgb = RGBLed(9, 10, 11)\nr = 10\nfor i in range(2):\n    r = r + 50\nrgb.set_color(r, 20, 30)\nmon.write(r)\n",
+    }
+    out += devdiff.obligations("C04/diff/variable-argument", {k: devdiff.IMPORTS + v for k, v in VARARG.items()},
+                               what="an argument naming a variable changed in a nested body has its run-time value: getters and delays equal the host class's")
     from progs.concat import concat_obligations
     out += concat_obligations("C04", {
         "Led": ("d = Led(9)", ["d.on()", "d.off()", "d.toggle()", "d.set_brightness(77)", "d.blink(20, 2)", "d.fade_in(50, 3)", "d.flash_pattern([1, 0], 10)"]),
